@@ -101,6 +101,19 @@ PROPS = {
         "exhaustive": False,
         "label": "partial: crash-freedom is a theorem for the sender's request loop, the demultiplexer, header / name-length validation, rule rejection and the abort-site inventory; for the remaining decoders it rests on the malformed-stream correspondences and the survival oracle",
     },
+    "C18": {
+        "components": ["interleave", "concurrent"],
+        "trusted_base": [KERNEL, HARNESSTB, FSNOTE,
+                         "modelled, not verified: the goroutine structure of a transfer (generator and receiver goroutines of Transfer.Do, the sender's single read-request / write-answer loop) as the three-process transition system of Model/Pipeline.v; the Go scheduler, io.Pipe and TCP as unconstrained interleaving over bounded FIFO channels; error paths and the race-freedom of concurrent sessions are decided by the harness (deadline oracle, Go race detector), not by a theorem",
+                         "Go race detector (go build -race) for the simultaneous-session component"],
+        "assumptions": [
+            "completion deadline: 120 s per session (30 s for sessions expected to fail); sessions are run in worker processes, a goroutine dump is attached when the deadline passes",
+            "simultaneous sessions run real command-line clients in one race-instrumented process against one daemon over TCP; 'the result it would produce alone' = destination tree equal to the source tree",
+        ],
+        "rule": "library pull and push over transports with capacity {0 (io.Pipe), 1, 19, 65536, unbounded} per direction x writes split into chunks of at most {unsplit, 1, 7, 4096} bytes with random microsecond delays x trees {250 tiny files, one large new file (huge literal), a 16 MiB file already present with five changed bytes (about 4000 block checksums = 80 kB of requests in one message), a mix}; local copies (the implementation's own unbuffered in-process pipes); sessions that must fail (a non-empty directory where a file must go; a wildcard filter rule the sender rejects) over capacities 0, 1, 65536; oracle: completion before the deadline, success and identical content for the sessions that succeed over an unbounded transport. simultaneous sessions: 2..32 pulls, uploads to distinct targets, uploads to one target, mixed, GOMAXPROCS 1/2/4/16, under the race detector; oracle: no race report, every session's result equals the source. quick tier: a third of the capacity grid, 2 and 9 simultaneous sessions",
+        "exhaustive": False,
+        "label": "partial: deadlock-freedom of the modelled pipeline for every capacity and schedule is a theorem; its fit to the code, the error paths and race-freedom are decided by the harness",
+    },
     "C10": {
         "components": ["genops", "recvmeta", "ssession", "dryrun"],
         "trusted_base": [KERNEL, EXTRACT, HARNESSTB, GEN, MD4NOTE, FSNOTE,
